@@ -7,6 +7,7 @@ import VotelibDriver.C05
 import VotelibDriver.C12
 import VotelibDriver.C03
 import VotelibDriver.C08Seq
+import VotelibDriver.PureProportionality
 import VotelibModel.ScaleFamilies
 import VotelibModel.Mono
 open Lean
@@ -73,7 +74,7 @@ def handleOwn (op : String) (j : Json) : Option (Except String Json) :=
 
 /-- C11 re-uses the model handlers of the families it scales (first handler that knows the op answers) -/
 def handlers : List (String → Json → Option (Except String Json)) :=
-  [handleOwn, C09.handle, C01.handle, C02.handle, C16.handle, C05.handle, C12.handle, C03.handle, C08Seq.handle]
+  [handleOwn, C09.handle, C01.handle, C02.handle, C16.handle, C05.handle, C12.handle, C03.handle, C08Seq.handle, Pure.handle]
 
 def handle (op : String) (j : Json) : Option (Except String Json) :=
   handlers.findSome? (fun h => h op j)
